@@ -185,12 +185,16 @@ class GenericSystemRegistry(
         if system is None:
             system = self._default_system_name
 
-        # The cache is only done for check_nonmult=True and the current system.
-        if (
-            check_nonmult
-            and system == self._default_system_name
-            and input_units in self._base_units_cache
-        ):
+        # The cache is only done for check_nonmult=True, the current system and
+        # while no active context redefines units (those change the factors).
+        active_ctx = getattr(self, "_active_ctx", None)
+        redefined = active_ctx is not None and any(
+            ctx.redefinitions for ctx in active_ctx.contexts
+        )
+        use_cache = (
+            check_nonmult and system == self._default_system_name and not redefined
+        )
+        if use_cache and input_units in self._base_units_cache:
             return self._base_units_cache[input_units]
 
         factor, units = self.get_root_units(input_units, check_nonmult)
@@ -216,7 +220,7 @@ class GenericSystemRegistry(
 
         base_factor = self.convert(factor, units, destination_units)
 
-        if check_nonmult:
+        if use_cache:
             self._base_units_cache[input_units] = base_factor, destination_units
 
         return base_factor, destination_units
